@@ -104,6 +104,13 @@ def gen_plan(seed, tier="quick"):
         first_valid = r.randrange(TROUGH + 1, min(ns - LENGTH, 400))
         spikes = [(first_valid + s[0] if i == 0 and s[0] <= TROUGH else s[0], s[1], s[2]) for i, s in enumerate(spikes)]
         spikes.sort(key=lambda x: (x[0], x[1]))
+    # documented assumption: no two spikes of one unit at the same sample (keep the first)
+    seen, uniq = set(), []
+    for s_ in spikes:
+        if (s_[0], s_[1]) not in seen:
+            seen.add((s_[0], s_[1]))
+            uniq.append(s_)
+    spikes = uniq
     return {
         "property": PROP, "seed": seed, "fixture": fixture, "nap": nap, "ns": ns, "form": r.choice(["bin", "bin", "cbin"]),
         "data_seed": r.randrange(1 << 30), "spikes": [list(s) for s in spikes], "max_wf": max_wf,
@@ -113,6 +120,8 @@ def gen_plan(seed, tier="quick"):
         "order": r.choice([None, None, "reverse", "shuffle"]), "sched_seed": r.randrange(1 << 30), "trace": None,
         # an earlier extraction in the same process on another probe geometry with the same channel count
         "prelude": r.choice([None, None] + [f for f in ("NP1", "NP21", "NP24") if f != fixture]),
+        # history: an earlier extraction on this .cbin died while decompressing into the shared scratch directory
+        "interrupted_first": r.choice([None, None, None, {"kind": r.choice(["kill", "torn", "io_error"]), "rseed": r.randrange(1 << 30)}]),
     }
 
 
@@ -248,6 +257,8 @@ def _run(plan, base):
             # no valid spike at all: nothing to extract, not a documented use
             return {"violation": None, "stats": stats, "digest": digest(["novalid"]), "plan": dict(plan), "sample": None}
         outs = {}
+        if plan.get("interrupted_first") and plan["form"] == "cbin":
+            _interrupted_first(plan, src, base, probe, stats)
         if plan.get("prelude"):
             _prelude(plan, base, probe, stats, sigbase)
         for tag, chunk, n_jobs, schedule in (("ref", plan["chunk_ref"], 1, None),
@@ -298,6 +309,36 @@ def _run(plan, base):
     return {"violation": viol, "stats": stats, "digest": digest(log), "plan": xplan,
             "sample": {"plan": {k: (v if k != "spikes" else v[:12]) for k, v in plan.items() if k != "trace"},
                        "n_spikes": len(plan["spikes"]), "schedule_head": next((e[4][:10] for e in reversed(log) if e[0] == "sim"), None)}}
+
+
+def _do_extract_step(step, root):
+    """The system's earlier process (forked child under the file-system seam)."""
+    root = Path(root)
+    sp = np.array(step["spikes"], dtype=np.int64).reshape(-1, 3)
+    od = root / "out_interrupted"
+    od.mkdir(exist_ok=True)
+    wfx.extract_wfs_cbin(root / step["src"], od, sp[:, 0], sp[:, 1], sp[:, 2], max_wf=step["max_wf"],
+                         chunksize_samples=step["chunk"], n_jobs=1, preprocess_steps=[], seed=step["wf_seed"],
+                         scratch_dir=root / "scratch")
+    return {"done": True}
+
+
+def _interrupted_first(plan, src, base, probe, stats):
+    from sim import fsseam
+    step = {"src": os.path.relpath(src, base), "spikes": plan["spikes"], "max_wf": plan["max_wf"], "chunk": plan["chunk"],
+            "wf_seed": plan["wf_seed"]}
+    dr = session.dry_run(base, _do_extract_step, step, copy_root=base.parent / (base.name + ".dry"))
+    elig = lambda lab: lab.startswith(("write:scratch/", "move:scratch/", "open-wb:scratch/", "close:scratch/"))  # noqa: E731
+    f = session.place_fault(rng_of(plan["interrupted_first"]["rseed"]), dr["events"], elig, kinds=(plan["interrupted_first"]["kind"],))
+    if f is None:
+        return
+    res = session.run_step(base, _do_extract_step, step, f)
+    stats["steps"] += len(res["events"])
+    if res["fired"]:
+        stats["faults"][res["fired"]["kind"]] = stats["faults"].get(res["fired"]["kind"], 0) + 1
+        probe("earlier_extraction_died_while_decompressing_to_scratch")
+    import shutil
+    shutil.rmtree(base / "out_interrupted", ignore_errors=True)
 
 
 def _prelude(plan, base, probe, stats, sigbase):
@@ -434,6 +475,17 @@ def _check_files(plan, tag, out, V, neigh, sp, valid, ns, nap, od, res, chunk, n
         if w.shape[0] != len(exp_rows) or not np.array_equal(w, traces[exp_rows], equal_nan=True) or \
                 not np.array_equal(chans, channels[exp_rows]) or not np.array_equal(info["sample"].to_numpy().astype(np.int64), samples[exp_rows]):
             raise Violation("C13.W5", f"{sigbase}:loader-subset", f"load_waveforms(labels={labs}, indices={idxs}) returned {w.shape[0]} rows, expected rows {exp_rows.tolist()[:12]} {ctx}")
+        # argument forms: labels as an unsorted python list, indices as a scalar
+        labs2 = list(reversed(labs))
+        i0 = idxs[0]
+        w2, info2, ch2 = wl.load_waveforms(labels=labs2, indices=i0)
+        exp2 = np.array(sorted(np.flatnonzero(clusters == u)[i0] for u in labs if i0 < int(np.sum(clusters == u))), dtype=int)
+        if w2.shape[0] != len(exp2) or not np.array_equal(w2, traces[exp2], equal_nan=True) or not np.array_equal(ch2, channels[exp2]):
+            raise Violation("C13.W5", f"{sigbase}:loader-args", f"load_waveforms(labels={labs2} (list), indices={i0} (scalar)) returned {w2.shape[0]} rows, expected rows {exp2.tolist()[:12]} {ctx}")
+        w3 = wl.load_waveforms(labels=np.array(labs), return_info=False)
+        exp3 = np.flatnonzero(np.isin(clusters, labs))
+        if not np.array_equal(w3, traces[exp3], equal_nan=True):
+            raise Violation("C13.W5", f"{sigbase}:loader-labels-only", f"load_waveforms(labels={labs}) does not return exactly those units' rows {ctx}")
     del wl
     # reach
     if tag == "sim" and n_jobs > 1:
@@ -452,7 +504,7 @@ def _check_files(plan, tag, out, V, neigh, sp, valid, ns, nap, od, res, chunk, n
 
 
 def shrink_candidates(plan):
-    for key, val in (("form", "bin"), ("order", None), ("victim", None), ("p_switch", 0.0), ("prelude", None)):
+    for key, val in (("form", "bin"), ("order", None), ("victim", None), ("p_switch", 0.0), ("prelude", None), ("interrupted_first", None)):
         if plan.get(key) != val:
             c = dict(plan)
             c[key] = val
